@@ -49,8 +49,14 @@ def gen_straddle(rng, i):
     ops.append("rB%d" % rng.choice([100, 200, 400, 700]))
     ops += rng.choice([["X"], ["N"], ["X", "X"], []])
     ops.append("hA1")
-    for _ in range(rng.randrange(1, 5)):
-        ops.append(rng.choice(["N", "N", "X", "X", "D1"]))
+    if rng.random() < 0.5:
+        for _ in range(rng.randrange(1, 5)):
+            ops.append(rng.choice(["N", "N", "X", "X", "D1"]))
+    else:
+        # the flushed segments arrive out of order, one is lost, others are duplicated by the network, the reader drains in between: the
+        # out-of-order list then holds a right-trimmed copy and a later, longer copy of the same segment when the gap is filled
+        for _ in range(rng.randrange(4, 16)):
+            ops.append(rng.choice(["N", "N", "X", "D1", "D2", "D3", "U0", "U1", "U2", "U3", "rB%d" % rng.choice([500, 1000, 2000, 2000, 4000])]))
     for _ in range(rng.randrange(1, 4)):
         t += rng.choice([300, 1000, 3000, 6000]); ops += ["T%d" % t, "kA"]
         ops += [rng.choice(["N", "N", "X"]) for _ in range(rng.randrange(1, 4))]
